@@ -24,8 +24,8 @@ RULE = (
     "engines: configurations {crc7,crc8,crc9,crc16,crc32} x EVERY length 0..400 x {zero word, all-ones, seeded random "
     "contents} (enumeration over lengths), all unit vectors of lengths {w-1,w,w+1,2w+3,96,183,400}, Hypothesis-drawn "
     "(config, length, contents, previous message) and GF(2)-linearity pairs; each case runs the bitwise and the table "
-    "register, long-lived and freshly built, plus the class-level CALC singleton, after a 'previous' message that dirties "
-    "the register.  Front ends: Hypothesis-drawn bit strings 0..400 (CRC8, CRC9 x 3 masks), octet strings 0..64 (CRC16 x 5 "
+    "register, long-lived and freshly built, plus the class-level CALC singleton, after a 'previous' message (none, random, or "
+    "related: zero-extended inside the same octet, one bit shorter, last / first bit inverted) that dirties the calculator.  Front ends: Hypothesis-drawn bit strings 0..400 (CRC8, CRC9 x 3 masks), octet strings 0..64 (CRC16 x 5 "
     "masks, CRC32), CRC-9 parts (data 0..24 octets, serial 0..127, crc32 absent / int in [1,2^32) / 4 octets).  Acceptance: "
     "all 2^w check values for w<=16 on sampled messages, computed value +-1 and all single-bit neighbours elsewhere.  "
     "Detection: ALL error patterns of weight 1..3 over the 96 bits (80 data + 16 CRC) of a CRC-CCITT PDU per sampled "
@@ -475,7 +475,8 @@ def drv_engine_lengths(ctx: Ctx, sub: SubCheck):
             rng = ctx.rng("engine_lengths", cfg, L)
             contents = ["0" * L, "1" * L] + [_rand_bits(rng, L) for _ in range(n_rand)]
             for i, s in enumerate(contents):
-                prev = _rand_bits(rng, rng.randrange(1, 41)) if i % 2 == 1 else None
+                kind = (i + L) % 6
+                prev = _rand_bits(rng, rng.randrange(1, 41)) if kind == 1 else _related_bits(s, kind)
                 case = {"cfg": cfg, "bits": s, "prev": prev}
                 ctx.run_case(sub.name, oracle_engine, case, t)
                 t.case(sub.name, nontrivial=_nt_bits(cfg, s), cls=f"{cfg}:{_cls_len(cfg, L)}")
@@ -542,9 +543,47 @@ def st_bits(lo=0, hi=400):
     return bits()
 
 
+def _related_bits(s, kind):
+    """A 'previous message' related to s: None (kind 0/1), s extended by zero bits inside the same octet (2), s without its
+    last bit (3), s with its last (4) / first (5) bit inverted.  Exposes state carried between calls that is keyed on
+    less than the whole bit string (packed octets, length, prefix)."""
+    if kind == 2:
+        return s + "0" * ((8 - len(s) % 8) % 8 or 1)
+    if kind == 3:
+        return s[:-1] if s else "0"
+    if kind == 4:
+        return s[:-1] + ("1" if s[-1] == "0" else "0") if s else "1"
+    if kind == 5:
+        return ("1" if s[0] == "0" else "0") + s[1:] if s else "1"
+    return None
+
+
+def _related_msg(fe, msg, kind):
+    if kind < 2:
+        return None
+    out = dict(msg)
+    if "bits" in msg:
+        out["bits"] = _related_bits(msg["bits"], kind)
+        return out
+    d = msg["data"]
+    if kind == 2:
+        out["data"] = d + "00"
+    elif kind == 3:
+        out["data"] = d[:-2]
+    elif kind == 4:
+        if fe == "crc9_parts":
+            out["sn"] = msg["sn"] ^ 1
+        else:
+            out["data"] = d[:-2] + ("%02x" % (int(d[-2:], 16) ^ 0x01)) if d else "01"
+    elif kind == 5:
+        out["data"] = ("%02x" % (int(d[:2], 16) ^ 0x80)) + d[2:] if d else "80"
+    return out
+
+
 def drv_engine_random(ctx: Ctx, sub: SubCheck):
     st = _st()
-    strat = st.builds(lambda c, b, p: {"cfg": c, "bits": b, "prev": p}, st.sampled_from(CFGS), st_bits(), st.one_of(st.none(), st_bits(1, 40)))
+    prev = st.one_of(st.none(), st_bits(1, 40), st.integers(2, 5))
+    strat = st.builds(lambda c, b, p: {"cfg": c, "bits": b, "prev": _related_bits(b, p) if isinstance(p, int) else p}, st.sampled_from(CFGS), st_bits(), prev)
     _hyp(ctx, sub, strat, oracle_engine, 60, 1500,
          lambda c, t: t.case(sub.name, key=c, nontrivial=_nt_bits(c["cfg"], c["bits"]), cls=f"{c['cfg']}:{_cls_len(c['cfg'], len(c['bits']))}"))
 
@@ -618,7 +657,7 @@ def make_front_driver(fe, nq, nt):
     def drv(ctx: Ctx, sub: SubCheck):
         st = _st()
         m = st_front_msg(fe)
-        strat = st.builds(lambda a, p: {"fe": fe, "msg": a, "prev": p}, m, st.one_of(st.none(), m))
+        strat = st.builds(lambda a, p: {"fe": fe, "msg": a, "prev": _related_msg(fe, a, p) if isinstance(p, int) else p}, m, st.one_of(st.none(), m, st.integers(2, 5)))
         _hyp(ctx, sub, strat, oracle_front, nq, nt, lambda c, t: t.case(sub.name, key=c, nontrivial=_front_nt(fe, c["msg"]), cls=_front_cls(fe, c["msg"])))
 
     return drv
@@ -633,7 +672,7 @@ def drv_accept_all_values(ctx: Ctx, sub: SubCheck):
         d = bytes(rng.getrandbits(8) for _ in range(rng.choice([10, 16, 22, 12, rng.randrange(0, 25)])))
         c32 = rng.choice([None, rng.randrange(1, 2**32)])
         items.append({"fe": "crc9_parts", "msg": {"data": d.hex(), "sn": rng.randrange(128), "mask": sorted(crc_ref.MASKS9)[i % 3], "crc32": c32, "crc32_as": rng.choice(["int", "bytes"])}, "values": "all"})
-    for i in range(ctx.pick(5, 40)):
+    for i in range(ctx.pick(3, 40)):
         d = bytes(rng.getrandbits(8) for _ in range(rng.choice([10, 10, rng.randrange(0, 65)])))
         items.append({"fe": "crc16", "msg": {"data": d.hex(), "mask": sorted(crc_ref.MASKS16)[i % 5]}, "values": "all"})
     items.sort(key=lambda c: -FE_WIDTH[c["fe"]])
